@@ -217,3 +217,52 @@ func sortedKeys[V any](m map[string]V) []string {
 	sort.Strings(ks)
 	return ks
 }
+
+// cmdSweep analyses one tree once and runs the rules of several (default: all) properties on it, printing what is not
+// discharged and writing nothing. Used to try scratch copies (seeded changes, refactorings, mutants).
+func cmdSweep(args []string) int {
+	fs := flag.NewFlagSet("sweep", flag.ExitOnError)
+	list := fs.String("props", "", "comma separated property ids (default: all)")
+	repo := fs.String("repo", "/repo", "tree to analyse")
+	verif := fs.String("verif", "/verif", "verif dir (known findings)")
+	tags := fs.String("tags", "", "build tags")
+	fs.Parse(args)
+	flattenVerifDir = *verif
+	ids := sortedKeys(props)
+	if *list != "" {
+		ids = strings.Split(*list, ",")
+	}
+	p, err := loadProg(*repo, *tags, controlSources())
+	if err != nil {
+		fmt.Printf("ERROR cannot analyse %s: %v\n", *repo, err)
+		return 2
+	}
+	if p.Flatten != nil {
+		for _, x := range p.Flatten.Skipped {
+			fmt.Printf("FLATTEN-SKIPPED %s\n", x)
+		}
+	}
+	rc := 0
+	for _, id := range ids {
+		pd := props[id]
+		if pd == nil {
+			fmt.Printf("ERROR unknown property %q\n", id)
+			return 2
+		}
+		c := newCtx(p, id, "quick")
+		func() {
+			defer func() {
+				if r := recover(); r != nil {
+					c.Errf("rule panic: %v", r)
+				}
+			}()
+			pd.Run(c)
+			c.checkControls()
+		}()
+		fmt.Printf("[%s]\n", id)
+		if r := c.finishNoEvidence(*verif); r > rc {
+			rc = r
+		}
+	}
+	return rc
+}
